@@ -469,6 +469,13 @@ def install():
                     led.reloaded = True
                     ctx.fault("profile_reloaded")
                 led.profiles[id(profile)] = (profile, loading_strategy)
+                # when the load will be complete by the *declared* loading time of the world spec (C15): the
+                # worker's own countdown is part of the system under test
+                spec_p = ctx.world.get("profiles", {}).get(profile.name) or {}
+                lrt = [x["runtime"] for x in spec_p.get("loading", [])]
+                if lrt and not getattr(led, "reloaded", False):
+                    led.load_ready = getattr(led, "load_ready", {})
+                    led.load_ready[id(profile)] = ctx.now + min(lrt)
                 ctx.rec("LOAD", worker=led.name, profile=profile.name)
                 ctx.probe("profile_loaded")
             return r
@@ -481,6 +488,7 @@ def install():
             r = orig(self, profile)
             if led is not None:
                 led.profiles.pop(id(profile), None)
+                getattr(led, "load_ready", {}).pop(id(profile), None)
                 ctx.rec("EVICT", worker=led.name, profile=profile.name)
                 ctx.probe("profile_evicted")
             return r
